@@ -1,6 +1,6 @@
 (* Extraction of the engine model to OCaml (engine.ml / engine.mli, written into the directory
    where coqc is run).  Only ExtrOcamlBasic: N, Z, positive, nat stay Coq's inductive types. *)
 From Coq Require Import Extraction ExtrOcamlBasic.
-From Verif Require Import Engine.
+From Verif Require Import Engine EngineReset.
 Extraction Language OCaml.
-Extraction "engine.ml" erun erun_ext erun_obs.
+Extraction "engine.ml" erun erun_ext erun_obs erun2 erun2_obs.
